@@ -43,7 +43,7 @@ func init() {
 		Assumptions: []string{"createdAt/updatedAt timestamps are not compared"},
 		Plan: func(tier core.Tier, seed int64) int {
 			if tier == core.Thorough {
-				return 16000
+				return 200000
 			}
 			return 480
 		},
